@@ -12,83 +12,76 @@ pub struct ExErrorKind(std::io::ErrorKind);
 pub assume_specification[ std::io::Error::kind ](e: &std::io::Error) -> std::io::ErrorKind;
 
 // ---- futures_lite::io::Take (assumed contract, from its documentation and source):
-// wraps a reader; delivers at most `n0` bytes in total and then reports end of stream without
-// touching the inner reader; every byte it delivers is the next byte of the inner reader.
+// wraps a reader; delivers at most `budget` bytes in total and then reports end of stream without
+// touching the inner reader; every byte it delivers is the next byte of the inner reader; the
+// inner reader is given up when the Take is.  The immutable attributes of a Take are functions of
+// its ghost identity `rid` (which no operation changes), so they survive calls that only know the
+// generic reader contract.
+pub uninterp spec fn take_inner_end(rid: int) -> Seq<Ev>;   // prophecy: the inner reader's final history
+pub uninterp spec fn take_start(rid: int) -> nat;           // length of the inner reader's history when wrapped
+pub uninterp spec fn take_budget(rid: int) -> nat;
 #[verifier::external_body]
 #[verifier::reject_recursive_types(R)]
 pub struct Take<R> { _r: core::marker::PhantomData<R> }
 impl<R: AsyncRead> Take<R> {
-    pub uninterp spec fn inner(&self) -> R;          // the wrapped reader, in its current state
-    pub uninterp spec fn start(&self) -> nat;        // inner.hist().len() when the Take was made
-    pub uninterp spec fn n0(&self) -> nat;           // the byte budget it was made with
+    pub uninterp spec fn tid(&self) -> int;
     pub uninterp spec fn thist(&self) -> Seq<Ev>;    // the events this Take has delivered
     #[verifier::prophetic]
     pub uninterp spec fn tend(&self) -> Seq<Ev>;
-    // the budget is never exceeded; delivered bytes are exactly the inner reader's new bytes;
-    // an error of the inner reader is passed on as an error
+    #[verifier::prophetic]
+    pub uninterp spec fn tend_id(&self) -> int;
+    // Relates the two prophecies: the bytes the inner reader will have delivered since it was
+    // wrapped are exactly the bytes this Take will have delivered, and never more than the budget.
+    // If the Take ends with Eof before the budget is used up, the inner reader reported that Eof.
     #[verifier::external_body]
-    pub proof fn take_inv(&self)
+    pub proof fn take_fate(&self)
         ensures
-            bytes_of(self.thist()).len() <= self.n0(),
-            self.start() <= self.inner().hist().len(),
-            bytes_of(self.inner().hist().skip(self.start() as int)) == bytes_of(self.thist()),
-            // Take reports end of stream itself once the budget is used up; before that, an Eof or
-            // Fail event of Take is an Eof or Fail event of the inner reader
-            forall|i: int| 0 <= i < self.thist().len() && (#[trigger] self.thist()[i]) is Eof
-                && bytes_of(self.thist().take(i)).len() < self.n0() ==> self.inner().hist().len() > self.start()
-                   && self.inner().hist().last() is Eof,
-    {}
-    // giving up the Take gives up the inner reader
-    #[verifier::external_body]
-    pub proof fn take_resolved(&self)
-        requires has_resolved(*self)
-        ensures self.inner().hist() == self.inner().end_hist()
+            take_start(self.tid()) <= take_inner_end(self.tid()).len(),
+            bytes_of(take_inner_end(self.tid()).skip(take_start(self.tid()) as int)) == bytes_of(self.tend()),
+            bytes_of(self.tend()).len() <= take_budget(self.tid()),
+            self.thist().is_prefix_of(self.tend()),
+            (self.tend().len() > 0 && self.tend().last() is Eof && bytes_of(self.tend()).len() < take_budget(self.tid()))
+                ==> take_inner_end(self.tid()).len() > take_start(self.tid()) && take_inner_end(self.tid()).last() is Eof,
     {}
 }
 impl<R: AsyncRead> AsyncRead for Take<R> {
     open spec fn hist(&self) -> Seq<Ev> { self.thist() }
     #[verifier::prophetic]
     open spec fn end_hist(&self) -> Seq<Ev> { self.tend() }
-    open spec fn limit(&self) -> nat { self.n0() }
+    open spec fn limit(&self) -> nat { take_budget(self.tid()) }
+    open spec fn rid(&self) -> int { self.tid() }
+    #[verifier::prophetic]
+    open spec fn end_rid(&self) -> int { self.tend_id() }
     #[verifier::external_body]
     proof fn resolved(&self) {}
     #[verifier::external_body]
     proof fn within_limit(&self) {}
     #[verifier::external_body]
-    fn read(&mut self, buf: &mut [u8]) -> (r: Result<usize, std::io::Error>)
-        ensures
-            (*final(self)).inner().end_hist() == (*old(self)).inner().end_hist(),
-            (*final(self)).start() == (*old(self)).start(), (*final(self)).n0() == (*old(self)).n0(),
-            (*old(self)).inner().hist().is_prefix_of((*final(self)).inner().hist()),
-            take_wf(*old(self)) ==> take_wf(*final(self)),
-    { unimplemented!() }
+    fn read(&mut self, buf: &mut [u8]) -> (r: Result<usize, std::io::Error>) { unimplemented!() }
     #[verifier::external_body]
-    fn read_to_end(&mut self, buf: &mut Vec<u8>) -> (r: Result<usize, std::io::Error>)
-        ensures
-            (*final(self)).inner().end_hist() == (*old(self)).inner().end_hist(),
-            (*final(self)).start() == (*old(self)).start(), (*final(self)).n0() == (*old(self)).n0(),
-            (*old(self)).inner().hist().is_prefix_of((*final(self)).inner().hist()),
-            take_wf(*old(self)) ==> take_wf(*final(self)),
-    { unimplemented!() }
+    fn read_to_end(&mut self, buf: &mut Vec<u8>) -> (r: Result<usize, std::io::Error>) { unimplemented!() }
 }
-pub broadcast proof fn b_take_resolved<R: AsyncRead>(t: Take<R>)
-    requires #[trigger] has_resolved(t)
-    ensures t.inner().hist() == t.inner().end_hist()
-{ t.take_resolved(); }
+pub broadcast proof fn b_take_fate<R: AsyncRead>(t: Take<R>)
+    ensures
+        take_start(t.tid()) <= take_inner_end(t.tid()).len(),
+        bytes_of(take_inner_end(t.tid()).skip(take_start(t.tid()) as int)) == bytes_of(#[trigger] t.tend()),
+        bytes_of(t.tend()).len() <= take_budget(t.tid()),
+        t.thist().is_prefix_of(t.tend()),
+        (t.tend().len() > 0 && t.tend().last() is Eof && bytes_of(t.tend()).len() < take_budget(t.tid()))
+            ==> take_inner_end(t.tid()).len() > take_start(t.tid()) && take_inner_end(t.tid()).last() is Eof,
+{ t.take_fate(); }
 
-// the representation invariant of Take, preserved by every operation (assumed)
-pub open spec fn take_wf<R: AsyncRead>(t: Take<R>) -> bool {
-    &&& bytes_of(t.thist()).len() <= t.n0()
-    &&& t.start() <= t.inner().hist().len()
-    &&& bytes_of(t.inner().hist().skip(t.start() as int)) == bytes_of(t.thist())
-}
 // the code calls `AsyncReadExt::take(reader, n)` in function-call syntax
 pub struct AsyncReadExt;
 impl AsyncReadExt {
     #[verifier::external_body]
     pub fn take<R: AsyncRead>(reader: R, limit: u64) -> (t: Take<R>)
-        ensures t.inner() == reader, t.start() == reader.hist().len(), t.n0() == limit,
-            t.thist().len() == 0, take_wf(t),
+        ensures
+            take_inner_end(t.tid()) == reader.end_hist(),
+            take_start(t.tid()) == reader.hist().len(),
+            reader.hist().is_prefix_of(reader.end_hist()),
+            take_budget(t.tid()) == limit,
+            t.thist().len() == 0,
     { unimplemented!() }
 }
 
